@@ -643,7 +643,10 @@ Definition targets (o : op) (c : Z) : bool :=
    10 BeginBlock returned an error (instead of falling back to registered)
    11 removal schedule: not exactly the first min(200, due) ids of the removal queue were processed, or a stopped
       consumer among them was not deleted
-   12 the raw store holds keys for a consumer that its records do not account for (or lacks some) *)
+   12 the raw store holds keys for a consumer that its records do not account for (or lacks some)
+   13 a consumer with an established channel was deleted but its channel was not closed (the implementation's
+      observation of a consumer carries, as 14th element, whether the IBC channel object is CLOSED; the model
+      does not track IBC's channel state, the projection drops the element before the comparison) *)
 
 Definition dec_consumer (t : tree) : consumer :=
   let z n := tz (tnth n t) in
@@ -652,6 +655,10 @@ Definition dec_consumer (t : tree) : consumer :=
            (tzs (tnth 11 t)) (tzs (tnth 12 t)))
       (z 10%nat).
 Definition dec_tq (t : tree) : tq := map (fun e => (tz (tnth 0 e), tzs (tnth 1 e))) (tlist t).
+(* per consumer: is its IBC channel object closed (14th element of the implementation's observation) *)
+Definition dec_closed (t : tree) : list (Z * bool) :=
+  map (fun ct => (tz (tnth 0 ct), tbool (tnth 13 ct))) (tlist (tnth 2 t)).
+
 (* (code, snapshot); s_now is not observed *)
 Definition dec_obs (t : tree) : Z * state :=
   (tz (tnth 0 t), mkS (tz (tnth 1 t)) 0 (map dec_consumer (tlist (tnth 2 t))) (dec_tq (tnth 3 t)) (dec_tq (tnth 4 t))).
@@ -683,7 +690,7 @@ Definition mon_snapshot (s : state) : list Z :=
   flag 8 (forallb (fun r => negb (c_phase r =? 5) || proto_empty_core (c_proto r)) (s_cons s)).
 
 (* clauses about one step; [stops] = first stop time per stopped consumer; returns the new [stops] too *)
-Definition mon_step (U now qc : Z) (stops : list (Z * Z)) (o : op) (code : Z) (a b : state) : list Z * list (Z * Z) :=
+Definition mon_step (U now qc : Z) (stops : list (Z * Z)) (closed : list (Z * bool)) (o : op) (code : Z) (a b : state) : list Z * list (Z * Z) :=
   let created := match o with OCreate _ _ _ _ => code =? 0 | _ => false end in
   let lo := s_next a + (if created then 1 else 0) in
   let c1 := flag 1 (zlist_eqb (map c_id (s_cons b)) (zseq 0 (Z.to_nat (s_next b))) &&
@@ -702,6 +709,8 @@ Definition mon_step (U now qc : Z) (stops : list (Z * Z)) (o : op) (code : Z) (a
                            | Some e => snd e + U <=? now
                            | None => false end))) in
   let c8 := flag 8 (per (fun r0 r => negb ((c_phase r0 =? 4) && (c_phase r =? 5)) || proto_empty (c_proto r))) in
+  let c13 := flag 13 (per (fun r0 r =>
+              negb ((c_phase r0 =? 4) && (c_phase r =? 5) && p_channel (c_proto r0)) || lookup false closed (c_id r))) in
   let c9 := flag 9 (per (fun r0 r =>
               negb ((c_phase r0 =? 4) && (c_phase r =? 4)) || targets o (c_id r) ||
               retained_eqb (c_proto r0) (c_proto r))) in
@@ -733,7 +742,7 @@ Definition mon_step (U now qc : Z) (stops : list (Z * Z)) (o : op) (code : Z) (a
   let stops' :=
     fold_left (fun acc r =>
       if (phase_of a (c_id r) =? 3) && (c_phase r =? 4) then (c_id r, now) :: acc else acc) (s_cons b) stops in
-  (c1 ++ c2 ++ c6 ++ c7 ++ c8 ++ c9 ++ sched ++ mon_snapshot b, stops').
+  (c1 ++ c2 ++ c6 ++ c7 ++ c8 ++ c9 ++ c13 ++ sched ++ mon_snapshot b, stops').
 
 (* [qc] = number of quiet create ops since the last observation *)
 Fixpoint mon_ops (U now qc : Z) (stops : list (Z * Z)) (a : state) (ops : list (bool * op)) (obs : list tree)
@@ -748,7 +757,7 @@ Fixpoint mon_ops (U now qc : Z) (stops : list (Z * Z)) (a : state) (ops : list (
       | [] => ([], a)
       | t :: obs' =>
         let (code, b) := dec_obs t in
-        let (bad, stops') := mon_step U now' qc stops o code a b in
+        let (bad, stops') := mon_step U now' qc stops (dec_closed t) o code a b in
         let (bad', sf) := mon_ops U now' 0 stops' b ops' obs' in
         (bad ++ bad', sf)
       end
